@@ -74,7 +74,7 @@ Qed.
 
 (* geometries of real frames satisfy the hypothesis (4:2:0 at 8/8 with 53 rows, 4:2:0 at 12/8 with 80 rows) *)
 Lemma ctx_v2_ok_examples :
-  ctx_v2_okb (mkGeom 8 2 53 4 false true 1 27 32 true 2 53) = true /\
-  ctx_v2_okb (mkGeom 12 2 80 4 false true 1 40 48 true 2 80) = true /\
-  ctx_v2_okb (mkGeom 2 2 7 2 false true 1 4 4 true 1 4) = true.
+  ctx_v2_okb (mkGeom 8 2 53 4 false true 1 27 32 true 2 53 false false false false) = true /\
+  ctx_v2_okb (mkGeom 12 2 80 4 false true 1 40 48 true 2 80 false false false false) = true /\
+  ctx_v2_okb (mkGeom 2 2 7 2 false true 1 4 4 true 1 4 false false false false) = true.
 Proof. vm_compute. repeat split; reflexivity. Qed.
